@@ -244,6 +244,8 @@ PREVIEWS = [{"least_squares_params": {"max_nfev": 3}}, {"least_squares_params": 
 
 def gen(rng, kind, tier):
     case = _gen(rng, kind, tier)
+    if case is not None and rng.random() < 0.06:
+        case["blemish"] = int(rng.integers(1, 1 << 30))
     if case is not None and rng.random() < 0.1:
         # an earlier refinement of the same candidate with other options (its outcome is not judged):
         # earlier calls must not influence later ones
@@ -291,6 +293,20 @@ def run(case, rec):
     fam = spec["family"]
     dim = geom.space_dim(spec)
     image = build_image(grid, spec, case)
+    if case.get("blemish"):
+        # a few non-finite pixels far away from the candidate (e.g. masked-out sensor pixels): they lie
+        # outside the fit region, so the fit is unaffected - and the image must still not be modified
+        probe = make_droplet(case["cand"])
+        pr = probe if isinstance(probe, dmod.DiffuseDroplet) else dmod.DiffuseDroplet.from_droplet(probe)
+        wv = pr.interface_width if pr.interface_width is not None else float(grid.typical_discretization)
+        near = ndimage.binary_dilation(np.asarray(pr.copy(interface_width=wv).get_phase_field(grid).data, float) > 1e-6,
+                                       iterations=3 + int(2 * wv))
+        far = np.argwhere(~near)
+        if len(far):
+            r_b = np.random.default_rng(case["blemish"])
+            for k in r_b.choice(len(far), size=min(3, len(far)), replace=False):
+                image[tuple(far[k])] = [np.nan, np.inf, -np.inf][int(r_b.integers(3))]
+            rec.count("images_with_non_finite_pixels_outside_the_fit_region")
     field = ScalarField(grid, image.copy())
     dig0 = hashlib.blake2b(field.data.tobytes(), digest_size=16).hexdigest()
     cand = common.via(make_droplet(case["cand"]), case.get("route"))  # provenance must not matter
